@@ -141,6 +141,8 @@ StepSweep(q, K) ==
   IF q.input >= Len(q.seqs) THEN "input"
   ELSE IF q.api = "delayed" /\ ~q.cnok THEN "point"
   ELSE IF q.ver # 2 THEN "version"
+  \* the wallet refuses to derive a key for a path of the wrong length (native style: one index)
+  ELSE IF q.outs # <<>> /\ Len(q.path) > 1 THEN "dest_error"
   ELSE IF \E i \in DOMAIN q.outs : ~(CanSpend(q.outs[i], q) \/ AllowHas(q.outs[i], q)) THEN "dest"
   ELSE CASE q.api = "delayed" ->
               IF ~SatisfiedByTip(q) THEN "locktime"
@@ -322,7 +324,7 @@ OutLists ==
     \cup {<<>>, <<GoodOut, GoodOut, GoodOut>>,
           <<GoodOut, FOut("p2wpkh")>>, <<FOut("p2wpkh"), GoodOut>>, <<GoodOut, GoodOut, FOut("p2wsh")>>,
           <<GoodOut, SOut>>, <<SOut, GoodOut>>, <<SOut, XOut("p2wpkh", WPATH)>>, <<GoodOut, SOut, FOut("p2tr")>>}
-Paths == {WPATH, <<>>, <<8>>}
+Paths == {WPATH, <<>>, <<8>>, <<0, 7>>}       \* the hint, none, another key, a path of the wrong length
 
 SweepCombos(tier) ==
   {<<api, ct, rs>> \in {"delayed", "justice", "cphtlc"} \X CTs(tier) \X {"none", "offered", "received"} :
